@@ -427,6 +427,9 @@ theorem decreaseWindow_c3_pin (node_Equals_candidate_nil : Bool) :
 theorem decreaseWindow_c4_pin (quota : BitVec 64) (weight : BitVec 64) :
     Gen.Policy.decreaseWindow_c4 quota weight = (BitVec.slt quota weight) := by pin_tac Gen.Policy.decreaseWindow_c4
 
+theorem decreaseWindow_x0_pin (p_windowMaximum : BitVec 64) :
+    Gen.Policy.decreaseWindow_x0 p_windowMaximum = (p_windowMaximum - (1#64)) := by pin_tac Gen.Policy.decreaseWindow_x0
+
 theorem decreaseWindow_a0_pin (p_adjustment : BitVec 64) :
     Gen.Policy.decreaseWindow_a0 p_adjustment = (-p_adjustment) := by pin_tac Gen.Policy.decreaseWindow_a0
 
@@ -606,6 +609,7 @@ theorem siteParams_pin : Gen.Policy.siteParams = [("access_c0", ["n_InWindow"]),
   ("decreaseWindow_c2", ["i"]),
   ("decreaseWindow_c3", ["node_Equals_candidate_nil"]),
   ("decreaseWindow_c4", ["quota", "weight"]),
+  ("decreaseWindow_x0", ["p_windowMaximum"]),
   ("decreaseWindow_a0", ["p_adjustment"]),
   ("decreaseWindow_a1", ["p_windowMaximum"]),
   ("decreaseWindow_a2", ["windowMaximum"]),
@@ -621,22 +625,22 @@ theorem siteParams_pin : Gen.Policy.siteParams = [("access_c0", ["n_InWindow"]),
   ("decreaseWindow_a6", ["quota"]),
   ("reorder_c0", ["d_Contains_n"])] := by rfl
 
-theorem shape_pin : Gen.Policy.shape = [("access", [3, 1, 0, 0, 0]),
-  ("add", [6, 5, 4, 0, 0]),
-  ("update", [11, 6, 1, 0, 0]),
-  ("queueOf", [2, 0, 0, 3, 0]),
-  ("discount", [2, 3, 1, 0, 0]),
-  ("makeDead", [2, 0, 1, 0, 0]),
-  ("setMaximumSize", [2, 0, 8, 0, 0]),
-  ("reorderProbation", [2, 1, 1, 0, 0]),
-  ("evictFromWindow", [4, 1, 5, 1, 0]),
-  ("evictFromMain", [14, 0, 29, 0, 0]),
-  ("admit", [2, 0, 2, 3, 0]),
-  ("climb", [2, 0, 1, 0, 0]),
-  ("determineAdjustment", [5, 0, 17, 0, 0]),
-  ("demote", [4, 2, 5, 0, 0]),
-  ("increaseWindow", [7, 8, 9, 0, 0]),
-  ("decreaseWindow", [5, 7, 7, 0, 0]),
-  ("reorder", [1, 0, 0, 0, 0])] := by rfl
+theorem shape_pin : Gen.Policy.shape = [("access", [3, 1, 0, 0, 0, 0]),
+  ("add", [6, 5, 4, 0, 0, 0]),
+  ("update", [11, 6, 1, 0, 0, 0]),
+  ("queueOf", [2, 0, 0, 3, 0, 0]),
+  ("discount", [2, 3, 1, 0, 0, 0]),
+  ("makeDead", [2, 0, 1, 0, 0, 0]),
+  ("setMaximumSize", [2, 0, 8, 0, 0, 0]),
+  ("reorderProbation", [2, 1, 1, 0, 0, 0]),
+  ("evictFromWindow", [4, 1, 5, 1, 0, 0]),
+  ("evictFromMain", [14, 0, 29, 0, 0, 0]),
+  ("admit", [2, 0, 2, 3, 0, 0]),
+  ("climb", [2, 0, 1, 0, 0, 0]),
+  ("determineAdjustment", [5, 0, 17, 0, 0, 0]),
+  ("demote", [4, 2, 5, 0, 0, 0]),
+  ("increaseWindow", [7, 8, 9, 0, 0, 0]),
+  ("decreaseWindow", [5, 7, 7, 0, 0, 1]),
+  ("reorder", [1, 0, 0, 0, 0, 0])] := by rfl
 
 end OtterVerif.Pin.Policy
